@@ -27,6 +27,9 @@ mod session;
 mod types;
 mod version;
 
+#[cfg(ntex_mqtt_verif)]
+pub mod verif_hooks;
+
 pub use self::config::MqttServiceConfig;
 pub use self::control::{Control, Reason};
 pub use self::error::{HandshakeError, MqttError, ProtocolError};
